@@ -12,6 +12,34 @@ CLAIMS = {
          'the mock of the catalogue query. Not covered: the catalogue SQL itself (SQLite typeof(<literal>) always answers text: known finding), sql_metadata table discovery.',
     technique='Coq proof over regenerated table + differential correspondence (extracted model vs implementation)', ref='7 C20'),
 }
+CLAIMS.update({
+ 'C01': dict(
+    text='Proof (Coq) + correspondence. Executable Gallina model of the normalisation chain (Model/Mapping.v) and of the materializer as written (Model/Engine.v: row-wise reading '
+         'of the vectorised code incl. working-column shadowing, the split/join template loop, joins, quoted maps) and an independent reading of the generation rules (Model/Spec.v). '
+         'Theorems proved so far are listed in Props/C01.v (null filter exactness, ...); the full Engine = Spec refinement is NOT proved: on every run the implementation is compared with BOTH '
+         'the Engine model and the Spec on generated mappings x tables; a deviation from the Spec is a violation unless it is one of the recorded findings reproduced exactly by the Engine model.',
+    note='Partial: engine_refines_spec is not proved in Coq; the tie Spec<->code rests on the differential check (220 cases quick, ~5600 thorough). Function-valued maps: C14. Sources other than CSV: C06/C10.',
+    technique='Coq model (Engine + Spec) with proved lemmas, differential correspondence impl vs extracted Engine vs extracted Spec', ref='7 C01', category='proof'),
+ 'C02': dict(
+    text='Proof (Coq): for EVERY labelling of the rule table, materialising group by group and uniting equals materialising rule by rule (grouping_irrelevant, grouping_fails_iff, modes_agree; '
+         'unbounded, by induction over the rule list), and the partitioners are total exactly on rule tables whose templates all contain a reference (partition_total, partition_fails_iff). '
+         'Tied to the code by running every generated case under NO / PARTIAL-AGGREGATIONS / MAXIMAL and comparing the three results with each other and with the model.',
+    note='The theorem is about the model of __init__.py/__main__.py grouping (groupby + per-group set + union); pandas groupby and multiprocessing are not modelled. Known finding: reference-free template.',
+    technique='Coq proof (union over any labelling) + differential correspondence across the three partitioning modes', ref='7 C02'),
+ 'C03': dict(
+    text='Correspondence against a pairwise criterion (Model/Partition.v `separable`): every pair of asserted rules that the implementation (PARTIAL-AGGREGATIONS, MAXIMAL) puts into different groups must be '
+         'separable at some position (incomparable constant prefixes / different constants / blank node vs not / different literal type); plus CLI runs checked for duplicate lines and for the reported total. '
+         'The Coq theorems that the criterion is safe for all data are under construction (Props/C03.v).',
+    note='Until Props/C03.v holds the disjointness theorems this is a differential check, not a proof: level other.',
+    technique='differential check of the implementation partition against the model criterion + CLI duplicate oracle (proof of the criterion pending)', ref='7 C03', category='other'),
+ 'C05': dict(
+    text='Proof (Coq), unbounded over all strings: the 8 sequential str.replace calls equal the character-wise ECHAR map (escape_lit_charwise), reading a rendered literal back yields the value '
+         '(unescape_escape, literal_closing_quote), no raw line break survives, UTF-8 and percent-encoding round-trip (utf8_roundtrip, pct_decode_encode) and emit only unreserved / safe / %XX '
+         '(pct_output_alphabet), a line printed from well-formed terms parses as exactly that statement and printing is injective (parse_render, print_injective). Correspondence: implementation lines = model lines on '
+         'thousands of composed strings x 8 term kinds x safe_percent_encoding / only_printable_chars; every line parsed by pyoxigraph (strict) and decoded back to the source value.',
+    note='Reference-valued IRIs, blank-node labels and reference-valued language tags are copied raw by the code: recorded findings (Findings/C05.v). Model/NQuads.v omits UCHAR and quoted triples.',
+    technique='Coq proofs over all strings + differential correspondence + strict-parser round-trip oracle', ref='7 C05'),
+})
 NOT_YET = {}
 
 def main():
